@@ -9,7 +9,7 @@ git -C /repo worktree remove --force /tmp/$pre-$id 2>/dev/null
 for j in 1 2; do
   k=$((j+off))
   [ -f $src/patch$j.diff ] || continue
-  if [ "$off" != 0 ]; then for f in patch demo meta; do for e in diff _test.go json; do [ -f $src/$f$j$e ] && cp $src/$f$j$e $src/$f$k$e; [ -f $src/$f$j.$e ] && cp $src/$f$j.$e $src/$f$k.$e; done; done; fi
+  if [ "$off" != 0 ]; then cp $src/patch$j.diff $src/patch$k.diff; cp $src/demo${j}_test.go $src/demo${k}_test.go; cp $src/meta$j.json $src/meta$k.json; fi
   line=$(./tools/verify_seed.sh $id $k $src | head -1)
   echo "$line" >> seeded/LEDGER.txt
   case "$line" in *"clean_demo=ok suite=ok patched_demo=fails"*) ;; *) echo "  -> NOT KEPT (verification failed)" >> seeded/LEDGER.txt; continue;; esac
